@@ -747,8 +747,9 @@ impl Exec {
                     }
                 }
             }
-            ["hash", t] => {
+            [op @ ("hash" | "hashq"), t] => {
                 self.count("hash");
+                let quiet = *op == "hashq";
                 let t = num(t)?;
                 let slot = self.trees.get_mut(&t).ok_or_else(bad)?;
                 let tree = match slot.tree.as_mut() {
@@ -757,7 +758,9 @@ impl Exec {
                 };
                 match catch_unwind(AssertUnwindSafe(|| tree.hash())) {
                     Ok(h) => {
-                        self.check_hashed(t, h);
+                        if !quiet {
+                            self.check_hashed(t, h);
+                        }
                         Ok(hex(&h))
                     }
                     Err(_) => {
@@ -1043,14 +1046,11 @@ impl Exec {
                 }
                 let hashed = catch_unwind(AssertUnwindSafe(|| {
                     let (mut ca, mut cb) = (ta.clone_box(), tb.clone_box());
-                    (ca.hash(), cb.hash(), ca.ser(), cb.ser())
+                    let cached_differ = ta.cached().is_some() && tb.cached().is_some() && (ta.cached() != tb.cached() || ta.ser() != tb.ser());
+                    (ca.hash(), cb.hash(), ca.ser(), cb.ser(), cached_differ)
                 }));
                 let bad_ = match hashed {
-                    Ok((ha, hb, sa_, sb_)) => {
-                        ha != hb
-                            || sa_ != sb_
-                            || (ta.cached().is_some() && tb.cached().is_some() && (ta.cached() != tb.cached() || ta.ser() != tb.ser()))
-                    }
+                    Ok((ha, hb, sa_, sb_, cached_differ)) => ha != hb || sa_ != sb_ || cached_differ,
                     Err(_) => true,
                 };
                 self.tick("C18");
